@@ -35,6 +35,10 @@ CHECKS = {
    technique='exhaustive enumeration of prior-activity histories up to a depth (replayed on fresh objects), differential probe shots against the canonical history',
    text='For all 69 background names and 20+ double-beta configurations, every history up to depth 3 (4 thorough) over 11 kinds of prior API activity (event reuse with exact capacities, reset/re-initialise, other instances alive or destroyed, rebuild) is followed by 9 probe shots with recorded deviate streams that must equal the canonical first-shot-of-a-fresh-generator event bit for bit; working parameters compared after re-initialisation; one 1e4 (1e6 thorough) shot history per configuration.',
    note='Trusted: bit-for-bit comparison; the long history is a single deterministic history, not exhaustive.'),
+ 'C11': dict(level='model_checking', ref='DESIGN.md §2 C11', engine='c11',
+   technique='explicit-state enumeration of (stream, file partition, window, call pattern) against a list-slice reference model on real files; exhaustive value-alphabet round trip',
+   text='Every stream of N<=4 (7 thorough) events, every split over 1-3 files including empty files, every (start,max) in 0..N+1 and every has_next/load call pattern is executed on a real event_reader; each answer is compared with the slice model events[start:start+max]. Round trip of ~8k (27k) enumerated events through the CLI record format to 15 digits.',
+   note='Trusted: the record layout copied from the driver; loads are only issued after a positive has_next_event.'),
 }
 NOT_YET = {
 }
@@ -74,6 +78,7 @@ def main():
             {'name': 'c06', 'path': 'checks/c06.cc', 'serves_properties': ['C06'], 'kind_free_text': 'complete grid enumeration of initialisation requests against the reference rules'},
             {'name': 'c09', 'path': 'checks/c09.cc', 'serves_properties': ['C09'], 'kind_free_text': 'explicit-state BFS over API histories with a reference state machine'},
             {'name': 'c07', 'path': 'checks/c07.cc', 'serves_properties': ['C07'], 'kind_free_text': 'history enumerator with differential probe shots'},
+            {'name': 'c11', 'path': 'checks/c11.cc', 'serves_properties': ['C11'], 'kind_free_text': 'reader window model checker and round-trip enumerator'},
             {'name': 'd0ref', 'path': 'tools/f2cxx.py', 'serves_properties': ['C01', 'C02', 'C06'], 'kind_free_text': 'reference model generated from resources/code/decay0/decay0_2020-04-20.for'},
         ],
         'checks': checks,
